@@ -478,6 +478,177 @@ static std::string recAtomicOps()
 	return out;
 }
 
+// ---- handles stored inside shared objects: nest <kind> <descr> <roots> <ops>
+//   descr = blocks separated by '/', each the comma list of the blocks its stored handles point to ('-' = none; only
+//   to higher-numbered blocks, so that a block is complete before a handle to it is taken); roots = comma list;
+//   ops = ';' list of `x` (the last variable goes out of scope) or `<path>=<path>`, path = r<i>[.<e>]*  ('-' = none)
+// prints how often each block was released after the ops, and after all variables have gone
+struct NA { int id; Array<NA> kids; NA(int x = 0) : id(x) {} };
+struct NM { int id; Map<int, NM> kids; NM(int x = 0) : id(x) {} };
+struct NH { int id; HashMap<int, NH> kids; NH(int x = 0) : id(x) {} };
+struct NS { int id; int n; Shared<NS> kids[8]; NS(int x = 0) : id(x), n(0) {} };
+struct NO_ : public SmartObject_ { int id; int n; SmartObject kids[8]; NO_() : id(0), n(0) {} };
+
+template<class H> struct Nest;
+template<> struct Nest<Array<NA> > {
+	typedef Array<NA> H;
+	static H make() { return H(); }
+	static void add(H& h, int e, const H& target) { NA n(e); n.kids = target; h << n; }
+	static int count(H& h) { return h.length(); }
+	static H* inner(H& h, int e) { return &h[e].kids; }
+	static int id(H& h, int e) { return h[e].id; }
+};
+template<> struct Nest<Map<int, NM> > {
+	typedef Map<int, NM> H;
+	static H make() { return H(); }
+	static void add(H& h, int e, const H& target) { NM n(e); n.kids = target; h[e] = n; }
+	static int count(H& h) { return h.length(); }
+	static H* inner(H& h, int e) { return &h[e].kids; }
+	static int id(H& h, int e) { return h[e].id; }
+};
+template<> struct Nest<HashMap<int, NH> > {
+	typedef HashMap<int, NH> H;
+	static H make() { return H(); }
+	static void add(H& h, int e, const H& target) { NH n(e); n.kids = target; h[e] = n; }
+	static int count(H& h) { return h.length(); }
+	static H* inner(H& h, int e) { return &h[e].kids; }
+	static int id(H& h, int e) { return h[e].id; }
+};
+template<> struct Nest<Shared<NS> > {
+	typedef Shared<NS> H;
+	static H make() { return H(new NS); }
+	static void add(H& h, int e, const H& target) { h->kids[h->n] = target; h->n++; (void)e; }
+	static int count(H& h) { return h->n; }
+	static H* inner(H& h, int e) { return &h->kids[e]; }
+	static int id(H& h, int e) { return e + h->id; }
+};
+template<> struct Nest<SmartObject> {
+	typedef SmartObject H;
+	static NO_* o(H& h) { return static_cast<NO_*>(h._p); }
+	static H make() { return H(new NO_); }
+	static void add(H& h, int e, const H& target) { o(h)->kids[o(h)->n] = target; o(h)->n++; (void)e; }
+	static int count(H& h) { return o(h)->n; }
+	static H* inner(H& h, int e) { return &o(h)->kids[e]; }
+	static int id(H& h, int e) { return e + o(h)->id; }
+};
+
+static bool parseInts(const std::string& s, char sep, std::vector<int>& out)
+{
+	out.clear();
+	if (s == "-") return true;
+	size_t a = 0;
+	while (a <= s.size()) {
+		size_t b = s.find(sep, a);
+		if (b == std::string::npos) b = s.size();
+		std::string t = s.substr(a, b - a);
+		if (t.empty() || t.find_first_not_of("0123456789") != std::string::npos || t.size() > 6) return false;
+		out.push_back(atoi(t.c_str()));
+		a = b + 1;
+	}
+	return true;
+}
+
+static std::vector<std::string> splitStr(const std::string& s, char sep)
+{
+	std::vector<std::string> r;
+	size_t a = 0;
+	while (a <= s.size()) {
+		size_t b = s.find(sep, a);
+		if (b == std::string::npos) b = s.size();
+		r.push_back(s.substr(a, b - a));
+		a = b + 1;
+	}
+	return r;
+}
+
+template<class H>
+static H* resolvePath(std::vector<H*>& roots, const std::string& p)
+{
+	std::vector<std::string> parts = splitStr(p, '.');
+	if (parts.empty() || parts[0].size() < 2 || parts[0][0] != 'r') return 0;
+	std::vector<int> idx;
+	if (!parseInts(parts[0].substr(1), ',', idx) || idx.size() != 1) return 0;
+	if (idx[0] >= (int)roots.size()) return 0;
+	H* cur = roots[idx[0]];
+	for (size_t k = 1; k < parts.size(); k++) {
+		std::vector<int> e;
+		if (!parseInts(parts[k], ',', e) || e.size() != 1) return 0;
+		if (e[0] >= Nest<H>::count(*cur)) return 0;
+		cur = Nest<H>::inner(*cur, e[0]);
+	}
+	return cur;
+}
+
+template<class H>
+static long touchAll(H& h, int& budget)
+{
+	long s = 0;
+	int n = Nest<H>::count(h);
+	for (int e = 0; e < n && budget > 0; e++) {
+		budget--;
+		s += Nest<H>::id(h, e);
+		s += touchAll(*Nest<H>::inner(h, e), budget);
+	}
+	return s;
+}
+
+template<class H>
+static std::string nestRun(const std::string& descrS, const std::string& rootsS, const std::string& opsS)
+{
+	std::vector<std::vector<int> > descr;
+	std::vector<std::string> bl = splitStr(descrS, '/');
+	for (size_t b = 0; b < bl.size(); b++) {
+		std::vector<int> v;
+		if (!parseInts(bl[b], ',', v) || v.size() > 8) return "bad-op";
+		for (size_t i = 0; i < v.size(); i++) if (v[i] <= (int)b || v[i] >= (int)bl.size()) return "bad-op";
+		descr.push_back(v);
+	}
+	std::vector<int> rootT;
+	if (!parseInts(rootsS, ',', rootT)) return "bad-op";
+	for (size_t i = 0; i < rootT.size(); i++) if (rootT[i] >= (int)descr.size()) return "bad-op";
+	int n = (int)descr.size();
+	vs::Sched& s = vs::S();
+	s.record_only = true;
+	std::vector<H>* blk = new std::vector<H>();
+	for (int b = 0; b < n; b++) blk->push_back(Nest<H>::make());
+	for (int b = n - 1; b >= 0; b--)
+		for (size_t e = 0; e < descr[b].size(); e++) Nest<H>::add((*blk)[b], (int)e, (*blk)[descr[b][e]]);
+	std::vector<H*> roots;
+	for (size_t i = 0; i < rootT.size(); i++) roots.push_back(new H((*blk)[rootT[i]]));
+	std::vector<const volatile void*> cnt;
+	for (int b = 0; b < n; b++) { std::vector<const volatile void*> c = countersOf(&(*blk)[b]); cnt.push_back(c.empty() ? (const volatile void*)0 : c[0]); }
+	s.record_only = true;
+	s.trace.clear();
+	delete blk;                       // the construction handles go
+	std::vector<std::string> ops = opsS == "-" ? std::vector<std::string>() : splitStr(opsS, ';');
+	for (size_t k = 0; k < ops.size(); k++) {
+		if (ops[k] == "x") { if (!roots.empty()) { delete roots.back(); roots.pop_back(); } continue; }
+		size_t eq = ops[k].find('=');
+		if (eq == std::string::npos) { s.record_only = false; return "bad-op"; }
+		H* dst = resolvePath(roots, ops[k].substr(0, eq));
+		H* src = resolvePath(roots, ops[k].substr(eq + 1));
+		if (!dst || !src) continue;
+		*dst = *src;
+	}
+	long sum = 0;
+	for (size_t i = 0; i < roots.size(); i++) { int budget = 4000; sum += touchAll(*roots[i], budget); }
+	std::string out = "frees=";
+	for (int pass = 0; pass < 2; pass++) {
+		for (int b = 0; b < n; b++) {
+			int f = 0;
+			for (size_t e = 0; e < s.trace.size(); e++) if (s.trace[e].kind == vs::K_FREE && s.trace[e].addr == cnt[b]) f++;
+			out += (b ? "," : "") + str(f);
+		}
+		if (pass == 0) {
+			while (!roots.empty()) { delete roots.back(); roots.pop_back(); }
+			out += " end=";
+		}
+	}
+	s.trace.clear();
+	s.record_only = false;
+	return sum < 0 ? out + " ?" : out;
+}
+
 static std::string step(const Toks& t)
 {
 	if (t[0] == "stress" && t.size() == 4) {
@@ -505,6 +676,14 @@ static std::string step(const Toks& t)
 		if (t[1] == "shared") return scenHandles<HShared >(ps, maxs);
 		if (t[1] == "smart") return scenHandles<SmartObject>(ps, maxs);
 		if (t[1] == "count" || t[1] == "atomic") return scenCounters(ps, maxs);
+		return "bad-op";
+	}
+	if (t[0] == "nest" && t.size() == 5) {
+		if (t[1] == "array") return nestRun<Array<NA> >(t[2], t[3], t[4]);
+		if (t[1] == "map") return nestRun<Map<int, NM> >(t[2], t[3], t[4]);
+		if (t[1] == "hashmap") return nestRun<HashMap<int, NH> >(t[2], t[3], t[4]);
+		if (t[1] == "shared") return nestRun<Shared<NS> >(t[2], t[3], t[4]);
+		if (t[1] == "smart") return nestRun<SmartObject>(t[2], t[3], t[4]);
 		return "bad-op";
 	}
 	if (t[0] == "rec" && t.size() == 2) {
